@@ -14,6 +14,11 @@ Oracles (from the statement only):
              evaluator's values
   same-elem  re-issuing every query in every binding form (positional, keyword, defaults, [], .value) runs no
              formula and returns the same value
+
+A held value may be None (allow_none switched on for the cells, its space or the model): the skeleton `none` has
+cells whose formula returns None for some arguments and cells with values assigned by the user (None among them); the
+same four oracles apply - a held None is served without running the formula, an assigned value is a held value (its
+formula never runs) and everything computed from it equals the uncached evaluation.
 """
 from common import *
 from c01_kit import *
@@ -271,7 +276,7 @@ def deep_case(item):
 def run_case(item):
     if item[0] == "deep":
         sp, sig, tags, src = deep_case(item)
-    elif item[0] in ("dyn", "inh"):
+    elif item[0] in ("dyn", "inh", "none"):
         return run_extra(item)
     else:
         sp, sig, tags, src = make_case(item)
@@ -334,6 +339,8 @@ def check_model(sp, tags, queries, cells_list, key, sample, order):
         held_exp = {}
         for tag, key in cum - failed:
             held_exp.setdefault(tag, set()).add(key)
+        for p_, c_, key_, _v in sp.inputs:          # a value assigned by the user is held (and never computed)
+            held_exp.setdefault(p_ + "." + c_, set()).add(repr(tuple(key_)))
         for path, cname in cells_list:
             tag = path + "." + cname
             c = run.obj(path + "." + cname)
@@ -399,6 +406,8 @@ INH_ATOMS = [("derived-own-ref-override", "r"), ("derived-ref-inherited", "r2"),
 
 
 def run_extra(item):
+    if item[0] == "none":
+        return run_none(item)
     kind, ai, ctxi, order = item
     sp = Spec()
     sp.ref("", "g", 7); sp.ref("", "h", 3)
@@ -433,6 +442,100 @@ def run_extra(item):
         cells_list = [("Sub", "t"), ("Base", "t"), ("Sub", "p"), ("Base", "p"), ("Sub", "p2"), ("Base", "p2")]
     tags = ["atom:" + a[0], "ctx:" + ctx[0], "with:" + b[0], "skeleton:" + kind]
     return check_model(sp, tags, reorder(queries, order), cells_list, (kind, src, order),
+                       {"formula": src, "order": order, "tags": tags}, order)
+
+
+# ------------------------------------------------------------------------------------------------ held value None
+# allow_none switched on at the cells / the space / the model; elements whose HELD value is None: computed (the
+# formula returns None for some arguments, also in a child space, another space, through a reference bound to the
+# cells, in an ItemSpace, with None as (default) argument) or assigned by the user; requested again directly in every
+# binding form and through dependents.
+
+def _nz(e):
+    """int-valued reading of an expression that may be None; asks for the element twice (the 2nd is a hit)."""
+    return "(-1 if %s is None else %s)" % (e, e)
+
+
+NONE_ATOMS = [
+    ("none-sib-call", _nz("opt(x)")),
+    ("none-sib-call-shifted", "(opt(x + 1) or 7)"),
+    ("none-sib-kw", "(opt(x=x) or 2)"),
+    ("none-sib-sub", "(_space.opt[x] or 3)"),
+    ("none-scalar-call", "(nul() or 4)"),
+    ("none-scalar-value", "(_space.nul.value or 5)"),
+    ("none-default-arg-none", _nz("dn(x)")),
+    ("none-explicit-arg-none", "(dn(x, None) or 6)"),
+    ("none-child-call", _nz("Ch.ko(x)")),
+    ("none-refcells-call", "(rc(x + 1) or 8)"),
+    ("none-model-path-call", "(_model.B.qn(x) or 9)"),
+    ("none-genexpr-call", "sum((opt(i) or 1) for i in range(x + 2))"),
+    ("none-assigned", _nz("inp(x)")),
+    ("none-assigned-sub", "(_space.inp[1] or 12)"),
+    ("none-assigned-scalar", "(ins() or 11)"),
+    ("none-assigned-scalar-value", _nz("_space.ins.value")),
+    ("none-itemspace-call", "(_model.P[1].pn(x) or 13)"),
+    ("none-recursion", "((t(x - 1) or 0) + 1 if x > 0 else (nul() or 1))"),
+]
+# the target itself returns None: bare context only
+NONE_TYPED_ATOMS = [
+    ("returns-none", "None"),
+    ("returns-none-for-some-args", "(None if x else 0)"),
+    ("returns-none-of-callee", "opt(x)"),
+    ("returns-none-assigned", "inp(x)"),
+    ("returns-none-of-chain", "rc(x + 2)"),
+]
+NONE_WHERE = ("cells", "space", "model")
+NONE_CTXS = (0, 1, 2, 3, 4, 7)         # the contexts that need no helper cells
+
+
+def none_skeleton(where):
+    sp = Spec()
+    sp.ref("", "g", 7); sp.ref("", "h", 3)
+    sp.space("A"); sp.space("A.Ch"); sp.space("B"); sp.space("P", params=("i",))
+    sp.ref("A", "r", 5); sp.ref("A.Ch", "y", 2); sp.ref("B", "z", 4)
+    sp.ref("A", "rc", Obj("B.qn"))
+    sp.cell("A", "opt", "def opt(x):\n    TICK('A.opt', (x,))\n    return None if x % 2 else x * 10 + r")
+    sp.cell("A", "nul", "def nul():\n    TICK('A.nul', ())\n    return None")
+    sp.cell("A", "dn", "def dn(x, y=None):\n    TICK('A.dn', (x, y))\n    return None if (y is None and x > 0) else x + (y or 0)")
+    sp.cell("A", "inp", "def inp(x):\n    TICK('A.inp', (x,))\n    return x + 100")
+    sp.cell("A", "ins", "def ins():\n    TICK('A.ins', ())\n    return 200")
+    sp.cell("A.Ch", "ko", "def ko(x):\n    TICK('A.Ch.ko', (x,))\n    return None if x > 0 else y")
+    sp.cell("B", "qn", "def qn(x):\n    TICK('B.qn', (x,))\n    return qn(x - 1) if x > 1 else (None if x else z)")
+    sp.cell("P", "pn", "def pn(x):\n    TICK('P[%d].pn' % i, (x,))\n    return None if (x + i) % 2 else x * i")
+    if where == "cells":
+        # (the cells of an ItemSpace do not take over the property of the cells they copy: P gets it as a space)
+        sp.allow_none += ["A.t", "A.opt", "A.nul", "A.dn", "A.inp", "A.ins", "A.Ch.ko", "B.qn", "P"]
+    elif where == "space":
+        sp.allow_none += ["A", "B", "P"]        # A.Ch and the ItemSpaces of P look the property up in their parent
+    else:
+        sp.allow_none += [""]
+    sp.inputs += [("A", "inp", (1,), None), ("A", "inp", (2,), 55), ("A", "ins", (), None)]
+    return sp
+
+
+NONE_QUERIES = [C("A", "t", (1,)), C("A", "t", (2,), form="sub"), C("A", "t", (), {"x": 0}),
+                C("A", "opt", (1,)), C("A", "opt", (2,)), C("A", "opt", (3,), form="sub"), C("A", "nul"),
+                C("A", "nul", form="value"), C("A", "dn", (1,)), C("A", "dn", (1, None)), C("A", "dn", (0, 3)),
+                C("A", "inp", (1,)), C("A", "inp", (), {"x": 2}), C("A", "inp", (3,)), C("A", "ins", form="value"),
+                C("A.Ch", "ko", (1,)), C("B", "qn", (3,)), C("B", "qn", (0,)), C("P[1]", "pn", (2,)),
+                C("P[2]", "pn", (1,), form="sub"), C("A", "t", (1,))]
+NONE_CELLS = [("A", "t"), ("A", "opt"), ("A", "nul"), ("A", "dn"), ("A", "inp"), ("A", "ins"), ("A.Ch", "ko"),
+              ("B", "qn"), ("P[1]", "pn"), ("P[2]", "pn")]
+
+
+def run_none(item):
+    _, ai, ctxi, wi, order = item
+    where = NONE_WHERE[wi]
+    atoms = NONE_ATOMS + NONE_TYPED_ATOMS
+    a = atoms[ai]
+    ctx = CONTEXTS[ctxi]
+    b = NONE_ATOMS[(ai + 5) % len(NONE_ATOMS)] if ctx[1] == 2 else None
+    expr = ctx[2].format(a="(" + a[1] + ")", b="(" + b[1] + ")" if b else "")
+    sp = none_skeleton(where)
+    src = "def t(x):\n    TICK('A.t', (x,))\n    return " + expr
+    sp.cell("A", "t", src)
+    tags = ["atom:" + a[0], "ctx:" + ctx[0], "skeleton:none", "allow-none:" + where] + (["with:" + b[0]] if b else [])
+    return check_model(sp, tags, reorder(NONE_QUERIES, order), NONE_CELLS, ("none", src, where, order),
                        {"formula": src, "order": order, "tags": tags}, order)
 
 
@@ -488,6 +591,13 @@ def enumerate_items(tier, rng):
             for ci in ((0, 1, 3) if tier == "quick" else range(len(CONTEXTS))):
                 for o in range(norders):
                     items.append((kind, ai, ci, o))
+    # held value None: atom x context x where allow_none is switched on x order
+    for ai in range(len(NONE_ATOMS) + len(NONE_TYPED_ATOMS)):
+        typed = ai >= len(NONE_ATOMS)
+        for ci in ((0,) if typed else ((0, 1, 3) if tier == "quick" else NONE_CTXS)):
+            for wi in range(len(NONE_WHERE)):
+                for o in range(norders):
+                    items.append(("none", ai, ci, wi, o))
     random.Random(20261002).shuffle(items)        # fixed order: a run cut by the budget still spans every kind
     n_exh = len(items)
     # depth 3: sampled
@@ -502,9 +612,11 @@ def run(res, tier, seed):
     res.bound = ("3 spaces (A, A.Ch, B) x <= 6 cells, target formula = grammar of %d atoms x %d contexts, depth <= 2 "
                  "(quick: every atom x every context with 2 partners; thorough: every atom pair x every context), "
                  "depth 3 sampled; + 2 small skeletons (cells of an ItemSpace with 2 parameters: %d atoms; derived / overridden cells of a "
-                 "sub space: %d atoms) x contexts; 4 target signatures; <= %d query orders of 13-14 queries per model; every binding "
+                 "sub space: %d atoms) x contexts; + 1 skeleton of elements holding None (4 spaces, 9 cells, %d atoms x contexts x "
+                 "allow_none on the cells / the space / the model; None computed or assigned by the user; 21 queries); 4 target "
+                 "signatures; <= %d query orders of 13-14 queries per model; every binding "
                  "form of every query") % (len(ATOMS) + len(TYPED_ATOMS) + len(COLLIDE_ATOMS), len(CONTEXTS) + 1, len(DYN_ATOMS), len(INH_ATOMS),
-                                             3 if tier == "quick" else 6)
+                                             len(NONE_ATOMS) + len(NONE_TYPED_ATOMS), 3 if tier == "quick" else 6)
     res.rule = ("exhaustive product listed in the bound, then seeded random depth-3 formulas; every case is "
                 "non-trivial (the target and its helpers are computed and compared with the uncached evaluator) except "
                 "when a colliding late reference is refused; distinct = distinct (target formula, shadow/collision "
